@@ -326,10 +326,23 @@ def run(rep, facts):
                 rep.ok("R7.4", "run/next-preamble-parser", "parser is Parser::new (first request) or the value returned by close() via Some(..)", n.loc())
 
 
+def run_handoff(rep, facts):
+    """R7.5: the parser-level hand-over used for connection reuse keeps exactly the unread suffix (rules of C05, re-evaluated)."""
+    import check as _check
+    from . import c05
+    rep.rule("R7.5", "connection reuse hands the unread input to the next request parser correctly even when the handler left input unread: record-boundary guard, discard of buffered stream data, compaction, then the hand-over of free_start (R5.3)")
+    sr = _check.Report("tmp", "quick")
+    c05.run(sr, facts)
+    for i in sr.instances:
+        if i["instance"] in ("into_request_parser", "request-constructor", "into_stream_parser", "stream-constructor"):
+            (rep.ok if i["status"] == "ok" else rep.violation)("R7.5", i["instance"], i["detail"], i["loc"])
+
+
 def main(rep, tier):
     import check
     import facts as F
     f = F.load(("async", "http"))
+    check.guard(rep, "R7.5", run_handoff, f)
     rep.configs.append({"features": "async,http", "profile": "debug", "bodies": len(f.bodies)})
     check.guard(rep, "R7", run, f)
     return rep.finish(
